@@ -109,6 +109,7 @@ func c03Reasons(f *chk.Fn, g *chk.Graph, lbIPs types.Object) []chk.Guard {
 }
 
 func runC03(p *chk.Prog, r *chk.Report) {
+	argRolesRule(p, r, 20, allocPkg, "controller")
 	// a released allocation leaves no tenant behind (SIBLING, shared with C11): a ghost tenant makes the next holder's re-adoption fail
 	c11Sibling(p, r)
 	familyPairRule(p, r)
@@ -289,6 +290,11 @@ func c03Converge(p *chk.Prog, r *chk.Report) {
 				}
 			}
 			if sized && !loopSkipsWithout(g, rs, fill, chk.NoGuard) && !loopHasBreak(g, rs) {
+				okIng = true
+			}
+			// ... or the address field of each (zero) slot set in place
+			fillIP := f.IsAssignPat("V[I].IP", "X.String()", chk.H("V", f.IsObj(v)), chk.H("I", rangeKey(f, rs)), chk.H("X", rangeVal(f, rs)))
+			if sized && !loopSkipsWithout(g, rs, fillIP, chk.NoGuard) && !loopHasBreak(g, rs) {
 				okIng = true
 			}
 		}
